@@ -91,6 +91,10 @@ def descriptors() -> dict[str, NodeV]:
         "Create", "stmt", kind=Const("TABLE"),
         this=node("Schema", this=table("T"), expressions=Lst([coldef("A", "VARCHAR", 10)])),
         properties=node("Properties", expressions=Lst([node("SchemaCommentProperty", this=lit(Sym("comment", typ="str", truthy=True)))])))
+    d["CREATE TABLE props no comment"] = node(
+        "Create", "stmt", kind=Const("TABLE"),
+        this=node("Schema", this=table("T"), expressions=Lst([coldef("A", "BIGINT")])),
+        properties=node("Properties", expressions=Lst([node("TransientProperty")])))
     d["CREATE TABLE AS"] = node("Create", "stmt", kind=Const("TABLE"), this=table("T"),
                                 expression=node("Select", expressions=Lst([node("Star")]), **{"from": node("From", this=table("U"))}))
     d["CREATE TABLE CLONE"] = node("Create", "stmt", kind=Const("TABLE"), this=table("T2"),
